@@ -30,6 +30,7 @@ typedef unsigned __int32 uint32_t;
 #include "metrics.h"
 #include "state.h"
 #include "util.h"
+#include "verif_hooks.h"
 
 using namespace std;
 
@@ -134,6 +135,7 @@ bool DepsLog::RecordDeps(Node* node, TimeStamp mtime, int node_count,
   }
   if (fflush(file_) != 0)
     return false;
+  VERIF_CRASH_POINT("depslog-after-record");
 
   // Update in-memory representation.
   Deps* deps = new Deps(mtime, node_count);
@@ -389,6 +391,7 @@ bool DepsLog::Recompact(const string& path, string* err) {
   // All nodes now have ids that refer to new_log, so steal its data.
   deps_.swap(new_log.deps_);
   nodes_.swap(new_log.nodes_);
+  VERIF_CRASH_POINT("depslog-recompact-before-replace");
 
   return ReplaceContent(path, temp_path, err);
 }
@@ -441,6 +444,7 @@ bool DepsLog::RecordId(Node* node) {
     return false;
   if (fflush(file_) != 0)
     return false;
+  VERIF_CRASH_POINT("depslog-after-id");
 
   node->set_id(id);
   nodes_.push_back(node);
